@@ -188,9 +188,12 @@ func TestC37_Sequential(t *testing.T) {
 				observe()
 			},
 			"addNotarized": func(t *rapid.T) {
-				i := rapid.IntRange(0, 3).Draw(t, "h")
-				b := vBlock(vHash(i), i)
-				run(fmt.Sprintf("AddNotarizedBlock(h%d)", i), func() { r.AddNotarizedBlock(b) })
+				// the same block again, a block of another rank, or another block of a rank already held (a block
+				// generated again after a timeout): blocks 2k and 2k+1 come from the miner of rank k
+				i := rapid.IntRange(0, 5).Draw(t, "h")
+				rk := i / 2
+				b := vBlock(vHash(i), rk)
+				run(fmt.Sprintf("AddNotarizedBlock(h%d rank %d)", i, rk), func() { r.AddNotarizedBlock(b) })
 				// the property only demands that the phase does not move backwards here;
 				// a first notarized block moves it to Share, a repeat of a held block may not
 				if ph := r.GetPhase(); ph < m.phase || ph > Share && ph != m.phase {
@@ -375,7 +378,7 @@ func TestC37_Concurrent(t *testing.T) {
 							sh.SetParty(miners[o.arg%len(miners)])
 							r.AddVRFShare(sh, threshold)
 						case 2:
-							r.AddNotarizedBlock(vBlock(vHash(o.arg%3), o.arg%3))
+							r.AddNotarizedBlock(vBlock(vHash(o.arg%6), (o.arg%6)/2))
 						case 3:
 							r.SetFinalizing()
 						case 4:
